@@ -777,6 +777,24 @@ func c02ReadSide(t *testing.T, rec *kit.Rec) {
 			// read the target once honestly so that the cache (if it caches this type) holds it
 			_, _ = repo.LoadRaw(context.Background(), restic.FileType(ftype), restic.TestParseID(f.Name))
 		}
+		// half of the warm-cache cases: the backend stays honest, the LIE sits in the cache file on
+		// disk (stale / altered cached copy) - content addressing must hold for reads served from
+		// the cache as well (seeded change C02-1)
+		tamperedCache := false
+		if lie.Cache == "warm" && rng.Bool() {
+			cdirs := map[backend.FileType]string{backend.PackFile: "data", backend.IndexFile: "index", backend.SnapshotFile: "snapshots"}
+			if d, ok := cdirs[ftype]; ok {
+				cf := filepath.Join(cacheDir, fx.repoID, d, f.Name[:2], f.Name)
+				if _, err := os.Stat(cf); err == nil {
+					_ = os.Chmod(cf, 0o600)
+					if os.WriteFile(cf, wrong, 0o600) == nil {
+						tamperedCache = true
+						lie.Cache = "warm-tampered-on-disk"
+						lie.When = "never"
+					}
+				}
+			}
+		}
 		var mu sync.Mutex
 		loadsOfTarget := 0
 		liesServed := 0
@@ -874,6 +892,9 @@ func c02ReadSide(t *testing.T, rec *kit.Rec) {
 			}
 		})
 		fx.be.SetMangle(nil)
+		if tamperedCache {
+			liesServed++
+		}
 		if cacheDir != "" {
 			_ = os.RemoveAll(cacheDir)
 		}
